@@ -145,6 +145,10 @@ def cases(tier, seed):
         if entry == "fastapi_parse" and slot != "response_description":
             continue
         yield dict(kind="route", entry=entry, slot=slot, payload=pk)
+    # gen --imports-from-file: the file's import statements are copied into the output, never acted upon
+    for name, _line in IMPORT_LINES:
+        for prepend in (False, True):
+            yield dict(kind="imports_file", entry="gen_imports_from_file", slot="import_statement", payload=name, prepend=prepend)
     yield dict(kind="control", entry="sync_properties_input_eval")
     yield dict(kind="control", entry="gen_prepend")
     # bounded-exhaustive probe of the character whitelist in front of the type-name eval
@@ -413,6 +417,8 @@ def run(case):
             return run_control(case, d)
         if case["kind"] == "route":
             return run_route(case, d)
+        if case["kind"] == "imports_file":
+            return run_imports_file(case, d)
         p = PAYLOADS[case["payload"]].replace("c17mark", repr(os.path.join(d, "c17mark")))
         markers = [SENT, "c17x", "c17mark", "c17y", "c17i"] + (["exit", "os.system"] if case["payload"] in NAME_ONLY else [])
         ctx = dict(check="no_execution", entry=case["entry"], slot=case["slot"], payload=case["payload"])
@@ -455,6 +461,43 @@ def run(case):
     finally:
         shutil.rmtree(d, ignore_errors=True)
     return dict(outcome="+".join(sorted(outcomes)) or "none", transitions=transitions, violations=viol, extra=extra)
+
+
+IMPORT_LINES = [
+    ("from_dotted", "from %s.sub import thing" % SENT),
+    ("import_dotted", "import %s.sub" % SENT),
+    ("import_dotted_as", "import %s.sub.deep as d" % SENT),
+    ("import_single", "import %s" % SENT),
+    ("from_single", "from %s import touch" % SENT),
+    ("relative", "from . import %s" % SENT),
+    ("in_try", "try:\n    import %s.sub\nexcept ImportError:\n    pass" % SENT),
+]
+
+
+def run_imports_file(case, d):
+    """gen with --imports-from-file naming a *file* whose import statements name the sentinel"""
+    line = dict(IMPORT_LINES)[case["payload"]]
+    src = os.path.join(d, "gin.py")
+    with open(src, "wt") as f:
+        f.write('class A(object):\n    """\n    A.\n\n    :cvar n: the n\n    """\n\n    n: Optional[int] = 5\n')
+    imp = os.path.join(d, "imports_src.py")
+    with open(imp, "wt") as f:
+        f.write("from typing import Optional\n" + line + "\nimport os\n")
+    out = os.path.join(d, "gout.py")
+    argv = ["gen", "--name-tpl", "{name}G", "--input-mapping", src, "--parse", "class", "--emit", "class", "-o", out, "--imports-from-file", imp, "--emit-and-infer-imports"]
+    if case["prepend"]:
+        argv += ["--prepend", "import json\n"]
+    ctx = dict(check="no_execution", entry=case["entry"], slot=case["slot"], payload=case["payload"], prepend=case["prepend"])
+    outcome = "returns"
+    with effects.Recording() as ev:
+        try:
+            _main(argv)
+        except SystemExit:
+            outcome = "exits"
+        except Exception:
+            outcome = "raises"
+    vs, ne = judge(list(ev), {out}, d, ctx, [SENT])
+    return dict(outcome=outcome, transitions=1, violations=vs, extra=dict(names_evaluated=ne))
 
 
 def run_route(case, d):
